@@ -12,6 +12,7 @@ func init() {
 	vfRegister("VfRIB_qNoFwd", VfRIB_qNoFwd)
 	vfRegister("VfRIB_q3", VfRIB_q3)
 	vfRegister("VfRIB_q3h", VfRIB_q3h)
+	vfRegister("VfRIB_qW", VfRIB_qW)
 	vfRegister("VfRIB_qx", VfRIB_qx)
 	vfRegister("VfRIB_qo", VfRIB_qo)
 	vfRegister("VfRIB_qx2", VfRIB_qx2)
@@ -120,6 +121,14 @@ func VfRIB_q3() {
 func VfRIB_q3h() {
 	vfRIBRun(vfRunCfg{pre: vfPreCfg{nNH: 1, nNHG: 1, nStale: 1, nHeld: 2, members: 1, topKinds: []int{vfKV4}}, fixLow: true, lean: true, steps: 1, members: 1,
 		typLo: 1, typHi: 1, kinds: []int{vfKNH, vfKNHG}, mapOrder: true})
+}
+
+// qW: weighted groups - members carry an optional weight of ANY 64-bit value (0 included): pre-state 1 next-hop,
+// 1 group (<=1 member), 1 held operation; one symbolic group ADD/REPLACE/DELETE of <=2 distinct members, with
+// forward references allowed or disallowed: a member's weight never changes what "resolvable" means.
+func VfRIB_qW() {
+	vfRIBRun(vfRunCfg{fwdBoth: true, pre: vfPreCfg{nNH: 1, nNHG: 1, nHeld: 1, heldTopOnly: true, members: 1, topKinds: []int{vfKV4}}, fixLow: true, weights: true, steps: 1, members: 2,
+		kinds: []int{vfKNHG}})
 }
 
 // qx: cross-instance references: a next-hop and a group in each of the two instances (the same group id may
